@@ -40,13 +40,13 @@ RULE = ("scripted introductions: NAT type of requester x of introduced peer (4x4
         "its WAN address, response only (via a fourth node), response then request, request then response} x "
         "NAT port policy {preserving, remapped} x LAN numbering drawn from all three RFC 1918 ranges incl. their edges and "
         "colliding /24s x listening ports {all 8090, distinct} x optional noise walks among candidates; plus random "
-        "histories: 3-6 hosts with random ages, 6-25 random walk/ask ops in either of two overlays, closed by an introduction of two nodes that do not know each other (oracle); plus the classes lan-collision, foreign-entry (known findings), bootstrap (blacklisted introducer), own-machine (introducer behind a box, peer on its machine), capacity (introducer at max_peers). distinct = distinct (configuration, op list); non-trivial = at "
+        "histories: 3-6 hosts with random ages, 6-25 random walk/ask ops in either of two overlays, closed by an introduction of two nodes that do not know each other (oracle); plus the classes lan-collision, foreign-entry (known findings), bootstrap (blacklisted introducer), own-machine (introducer behind a box, peer on its machine), capacity (introducer at max_peers), remap-introduced / remap-requester / roam-requester (NAT mapping renewed, node moved to another public ip), churn (introducer with max_peers=-1 drops and re-verifies the peer). distinct = distinct (configuration, op list); non-trivial = at "
         "least one packet was dropped by a NAT filter or delivered over a LAN segment")
 TRUSTED_BASE = [
     "tools/gen_c13.py: AST translation of the address decisions of community.py (assignments, if/elif chains, list appends, tuple/attribute/index expressions); IPv4 only, isinstance(x, UDPv4Address) is translated to true",
     "hand-written model of lazy_wrapper's peer lookup, Network.add_verified_peer/discover_address/get_walkable_addresses/is_new_style, Peer address slots and the packet plumbing (Ipv8/C13/Model.lean), tied by the correspondence run",
     "harness/c13.py SimNet: the simulated internet and NAT boxes; the Lean model's `route` implements the same rules and is compared packet by packet",
-    "real NAT behaviour in time (mapping/filter expiry, packet loss, reordering between the puncture and the requester's next request) is outside the model; packets are processed in FIFO order until quiescence",
+    "real NAT behaviour in time (WHEN a mapping or filter entry expires, packet loss, reordering between the puncture and the requester's next request) is outside the model; packets are processed in FIFO order until quiescence; THAT a mapping is renewed or a node roams between contacts is a history event (remap) of model and simulator",
     "signatures and the wire codec are exercised by the real nodes but are not part of the model (a message is its decoded fields)",
 ]
 ASSUMPTIONS = [
@@ -217,6 +217,21 @@ class ErrCatcher(logging.Handler):
         self.records.append(record.getMessage()[-600:])
 
 
+def new_mapping(lay, w, i: int, roam: bool):
+    """a fresh WAN mapping for boxed host i: same box with another port (reboot) or a new box (roaming)"""
+    h = w.net.hosts[i]
+    if roam:
+        b = lay.new_box(lay.boxes[h.box]["net"] if h.box else None)
+    else:
+        b = h.box
+    box = lay.boxes[b]
+    port = lay.rng.randrange(1024, 65000)
+    while port in box["ports"]:
+        port = lay.rng.randrange(1024, 65000)
+    box["ports"].add(port)
+    return b, (box["ip"], port)
+
+
 class World:
     """Real Community nodes on a SimNet, plus the protocol lines for the model."""
 
@@ -378,6 +393,22 @@ class World:
         """a bootstrap server's address: Community.ensure_blacklisted"""
         self.net.hosts[i].node.ensure_blacklisted(addr)
         self.lines.append(f"blacklist {i} {ip2int(addr[0])} {addr[1]}")
+        self.expect.append("ok")
+
+    def remap(self, i: int, box: int, wan):
+        """the host's NAT mapping changes (reboot / timeout: same box, new port; roaming: another box and public ip)"""
+        h = self.net.hosts[i]
+        h.box, h.wan, h.sent = box, wan, []
+        self.lines.append(f"remap {i} {box} {ip2int(wan[0])} {wan[1]}")
+        self.expect.append("ok")
+
+    def remove_peer(self, i: int, k: int):
+        """churn: node i drops peer k (what a discovery strategy does with a peer that stopped answering)"""
+        nw = self.net.hosts[i].node.network
+        peer = nw.verified_by_public_key_bin.get(self.e["keys"][k].pub().key_to_bin())
+        if peer is not None:
+            nw.remove_peer(peer)
+        self.lines.append(f"remove {i} {k}")
         self.expect.append("ok")
 
     def set_max_peers(self, i: int, m: int):
@@ -585,6 +616,8 @@ def scripted(ctx: Ctx, cfg: dict, use_model: bool, batch: list):
             for h in hosts:
                 if h.idx != I:
                     w.blacklist(h.idx, iaddr)
+        if klass == "churn":
+            w.set_max_peers(I, -1)
         if klass == "capacity":
             # the introducer holds exactly max_peers peers when the requester's request arrives: it still answers
             w.set_max_peers(I, len(cands))
@@ -650,6 +683,28 @@ def scripted(ctx: Ctx, cfg: dict, use_model: bool, batch: list):
                     for a, _ns in w.walkable(c, s)[:3]:
                         if a not in (hosts[R].lan, hosts[R].wan):      # the pair under test stays unconnected
                             w.walk(c, a, s)
+            if klass == "remap-introduced" and hosts[P].box:
+                # the introduced peer's mapping is renewed after the introducer learned it; it contacts the introducer
+                # again from the new mapping (what its discovery strategy does all the time)
+                w.remap(P, *new_mapping(lay, w, P, False))
+                if new and I in w.peers(P, s):
+                    w.ask(P, I, s)
+                else:
+                    w.walk(P, iaddr, s)
+            if klass in ("remap-requester", "roam-requester") and hosts[R].box:
+                # the requester is a known peer of the introducer with a WAN estimate (it was introduced once, did not
+                # walk), then its mapping is renewed / it roams to another public ip
+                if not new:
+                    w.walk(R, iaddr, s)
+                w.remap(R, *new_mapping(lay, w, R, klass == "roam-requester"))
+            if klass == "churn" and hosts[P].box:
+                # the introducer (no peer limit) drops the introduced peer after its mapping was renewed; the peer walks to
+                # the introducer again from the new mapping
+                w.remap(P, *new_mapping(lay, w, P, False))
+                w.remove_peer(I, P)
+                w.walk(P, iaddr, s)
+                if new:
+                    w.ask(P, I, s)
             if klass == "lan-collision" and s == 0:
                 w.walk(R, hosts[Q].wan, s)        # the requester gets to know Q (Q's response tells its LAN address)
             if klass == "foreign-entry" and s == 0:
@@ -870,6 +925,18 @@ def random_history(ctx: Ctx, seed: int, use_model: bool, batch: list):
             sv = 0 if rng.random() < 0.7 else 1
             ctx.count(f"op:overlay{sv}")
             r = rng.random()
+            if rng.random() < 0.08:
+                boxed = [h.idx for h in hosts if h.box]
+                if boxed:
+                    j = rng.choice(boxed)
+                    roam = rng.random() < 0.4
+                    ctx.count("op:roam" if roam else "op:remap")
+                    w.remap(j, *new_mapping(lay, w, j, roam))
+            if rng.random() < 0.06:
+                ps = sorted(set(w.peers(i, 0)) | set(w.peers(i, 1)))
+                if ps:
+                    ctx.count("op:remove-peer")
+                    w.remove_peer(i, rng.choice(ps))
             if r < 0.35:
                 j = rng.randrange(nh)
                 a = rng.choice([hosts[j].wan, hosts[j].wan, hosts[j].lan])
@@ -1004,6 +1071,10 @@ CLASSES = {
     "bootstrap": (PLACEMENTS, ("old",)),                     # the introducer is a blacklisted bootstrap server
     "own-machine": (["public", "diff"], ("old", "new")),     # introducer behind a NAT, introduced peer on its machine
     "capacity": (["diff", "same"], ("old",)),                # introducer holds exactly max_peers peers
+    "remap-introduced": (["diff", "same", "rPub"], ("old", "new")),   # introduced peer's NAT mapping renewed, it re-contacts I
+    "remap-requester": (["diff", "same", "pPub"], ("old", "new")),    # requester's NAT mapping renewed while known to I
+    "roam-requester": (["diff", "same", "pPub"], ("old", "new")),     # requester moves to another public ip
+    "churn": (["diff", "same", "rPub"], ("old", "new")),              # unlimited introducer drops + re-verifies the peer
 }
 
 
@@ -1072,17 +1143,19 @@ def sample_trace(ctx: Ctx):
 
 
 def search(ctx: Ctx, reason: str):
-    """implementation-only: the whole table with more variants, every candidate count"""
+    """implementation-only, after an obligation broke and the normal run found nothing: the tables once more with fresh
+    variants.  Bounded (about a minute) so that a failing quick run stays within a few minutes."""
+    t0 = ctx.elapsed()
     lan_table_check(ctx, False, [])
-    for hist in HISTORIES:
-        for cfg in table_cfgs(ctx.rng, 3, history=hist):
-            scripted(ctx, cfg, False, [])
-            if len(ctx.failures) >= 20:
-                return
     for klass, (pls, styles) in CLASSES.items():
-        for cfg in table_cfgs(ctx.rng, 2, placements=pls, styles=styles, klass=klass):
+        for cfg in table_cfgs(ctx.rng, 1, placements=pls, styles=styles, klass=klass):
             scripted(ctx, cfg, False, [])
-            if len(ctx.failures) >= 20:
+            if len(ctx.failures) >= 20 or ctx.elapsed() - t0 > 60:
+                return
+    for hist in HISTORIES:
+        for cfg in table_cfgs(ctx.rng, 1, history=hist):
+            scripted(ctx, cfg, False, [])
+            if len(ctx.failures) >= 20 or ctx.elapsed() - t0 > 60:
                 return
 
 
